@@ -213,6 +213,14 @@ def oracle(c, o):
         return None
     if not strict and o["loads"] == ["err", "stray"]:
         return "stray-text error although strict parsing is off"
+    if "SMChart_from_msd" in o:
+        vals = ps[0][1:]
+        want_chart = ["ok", [[v.strip() for v in vals[:6]], vals[6:]]] if len(vals) >= 6 else ["err", "value"]
+        if o["SMChart_from_msd"] != want_chart:
+            return "SMChart.from_msd gives %s..., six trimmed fields plus extra components would be %s..." % (str(o["SMChart_from_msd"])[:200], str(want_chart)[:200])
+        if "SMChart_from_str" in o and o["SMChart_from_str"] != want_chart:
+            return "SMChart.from_str on the components joined by ':' gives %s..., from_msd on the components gives %s..." % (
+                str(o["SMChart_from_str"])[:200], str(want_chart)[:200])
     sm, ssc = doc_sm(ps), doc_ssc(ps)
     if o["SM_string"] != sm:
         return "SMSimfile gives %s..., documented rules give %s..." % (str(o["SM_string"])[:300], str(sm)[:300])
